@@ -4,6 +4,20 @@
 From Coq Require Import List Arith NArith Bool Lia.
 Import ListNotations.
 Require Import SR.Base.Res SR.Spec.Layout SR.Model.Layout.
+(* The definitions of this development that occur in theorem statements (Props/) live in Spec/LayoutWf.v (audit item G1).
+   The abbreviations keep the qualified names LayoutP.name of other files resolving; they are parsing-only aliases. *)
+Require Export SR.Spec.LayoutWf.
+Notation ids := SR.Spec.LayoutWf.ids (only parsing).
+Notation ids_kids := SR.Spec.LayoutWf.ids_kids (only parsing).
+Notation elem_table := SR.Spec.LayoutWf.elem_table (only parsing).
+Notation no_odo := SR.Spec.LayoutWf.no_odo (only parsing).
+Notation unions_ok := SR.Spec.LayoutWf.unions_ok (only parsing).
+Notation wf := SR.Spec.LayoutWf.wf (only parsing).
+Notation wf_kids := SR.Spec.LayoutWf.wf_kids (only parsing).
+Notation alts_red := SR.Spec.LayoutWf.alts_red (only parsing).
+Notation assemble_d := SR.Spec.LayoutWf.assemble_d (only parsing).
+Notation kid_ids := SR.Spec.LayoutWf.kid_ids (only parsing).
+Notation assoc := SR.Spec.LayoutWf.assoc (only parsing).
 
 (* ------------------------------------------------------------------ keys and lookups *)
 Lemma key_eqb_eq a b : key_eqb a b = true <-> a = b.
@@ -336,81 +350,11 @@ Section Walk.
 End Walk.
 
 (* ------------------------------------------------------------------ ids and well-formedness *)
-Fixpoint ids (x : item) : list id :=
-  item_id x :: match x with Elem _ _ _ _ => [] | Group _ _ _ ks => ids_kids ks end
-with ids_kids (ks : items) : list id :=
-  match ks with INil => [] | ICons x xs => ids x ++ ids_kids xs end.
-
-Definition elem_table (x : item) : bool :=
-  match x with Elem _ _ Once _ => false | Elem _ _ _ _ => true | Group _ _ _ _ => false end.
-Definition no_odo (o : occ) : bool := match o with Odo _ => false | _ => true end.
 
 Fixpoint in_kids (x : item) (ks : items) : Prop :=
   match ks with INil => False | ICons y ys => x = y \/ in_kids x ys end.
 
-(* REDEFINES among the children of one group: a redefiner names an EARLIER sibling that is not itself
-   a redefiner, is no longer than it, and neither is an elementary OCCURS item *)
-Fixpoint unions_ok (e : env) (bases : list (id * nat)) (ks : items) : bool :=
-  match ks with
-  | INil => true
-  | ICons x xs =>
-      match item_redef x with
-      | Some u =>
-          negb (elem_table x)
-          && match find (fun p => N.eqb (fst p) u) bases with
-             | Some (_, ext_u) => extent e x <=? ext_u
-             | None => false
-             end
-          && unions_ok e bases xs
-      | None =>
-          (* an elementary OCCURS item may not be redefined *)
-          (negb (elem_table x) || negb (existsb (N.eqb (item_id x)) (redef_targets xs)))
-          && unions_ok e ((item_id x, extent e x) :: bases) xs
-      end
-  end.
-
-Fixpoint wf (e : env) (x : item) : bool :=
-  no_odo (item_oc x) &&
-  match x with
-  | Elem _ _ _ _ => true
-  | Group _ oc _ ks =>
-      wf_kids e ks &&
-      match oc with
-      | Once => unions_ok e [] ks
-      | _ => match redef_targets ks with [] => true | _ => false end
-      end
-  end
-with wf_kids (e : env) (ks : items) : bool :=
-  match ks with INil => true | ICons x xs => wf e x && wf_kids e xs end.
-
 (* ------------------------------------------------------------------ build_json_schema's children loop, flattened *)
-(* alternatives contributed by the redefiners of u among xs *)
-Fixpoint alts_red (u : id) (xs : items) : jalts :=
-  match xs with
-  | INil => ANil
-  | ICons y ys =>
-      match item_redef y with
-      | Some u' => if N.eqb u u' then ACons (build_alt y) (alts_red u ys) else alts_red u ys
-      | None => alts_red u ys
-      end
-  end.
-
-(* direct description: at the redefined item x: REDEFINES-x -> oneOf [x, its redefiners in order]
-   then x -> $ref; at a redefiner y: y -> $ref; otherwise k -> build k *)
-Fixpoint assemble_d (ks : items) : props :=
-  match ks with
-  | INil => PNil
-  | ICons x xs =>
-      match item_redef x with
-      | Some _ => PCons (KName (item_id x)) (JRef (KName (item_id x))) (assemble_d xs)
-      | None =>
-          if existsb (N.eqb (item_id x)) (redef_targets xs)
-          then PCons (KRedef (item_id x))
-                 (JOne (Some (KRedef (item_id x))) (ACons (build_alt x) (alts_red (item_id x) xs)))
-                 (PCons (KName (item_id x)) (JRef (KName (item_id x))) (assemble_d xs))
-          else PCons (KName (item_id x)) (build_alt x) (assemble_d xs)
-      end
-  end.
 
 Fixpoint app_items (a b : items) : items :=
   match a with INil => b | ICons x xs => ICons x (app_items xs b) end.
@@ -459,9 +403,6 @@ Proof.
     destruct (existsb (N.eqb (item_id y)) tg); [|apply IH; exact Hys].
     destruct (N.eqb u (item_id y)) eqn:E; [apply N.eqb_eq in E; subst; contradiction|apply IH; exact Hys].
 Qed.
-
-Fixpoint kid_ids (ks : items) : list id :=
-  match ks with INil => [] | ICons x xs => item_id x :: kid_ids xs end.
 
 Lemma kid_ids_app a b : kid_ids (app_items a b) = kid_ids a ++ kid_ids b.
 Proof. induction a as [|x xs IH]; cbn [app_items kid_ids app]; [reflexivity|]. rewrite IH. reflexivity. Qed.
@@ -802,9 +743,6 @@ Qed.
 
 (* ------------------------------------------------------------------ what a correct location looks like *)
 Definition is_ref (l : loc) : bool := match l with LRef _ _ => true | _ => false end.
-
-Fixpoint assoc (i : id) (l : list (id * nat)) : option nat :=
-  match l with [] => None | (j, v) :: r => if N.eqb j i then Some v else assoc i r end.
 
 Section Good.
   Variable B : Type.
